@@ -255,7 +255,9 @@ pub fn c04(spec: &WorldSpec, ex: &Exec) -> Option<Viol> {
                             } else {
                                 let c = subs_per.entry((p, st.puppet)).or_insert(0);
                                 *c += 1;
-                                if *c > 1 {
+                                // networks that list the same source value twice re-subscribe it
+                                let resubscribes = matches!(spec.op, Op::Net(n) if n.contains("(sh,sh)") || n.contains("(fi,fi)"));
+                                if *c > 1 && !resubscribes {
                                     found = Some(viol(spec, "upstream-subscribed-twice", i, format!("puppet {} subscribed twice for probe {p}", st.puppet)));
                                     return;
                                 }
